@@ -12,6 +12,8 @@ import (
 	"cosmossdk.io/math"
 	sdk "github.com/cosmos/cosmos-sdk/types"
 	"github.com/cosmos/cosmos-sdk/types/query"
+	authtypes "github.com/cosmos/cosmos-sdk/x/auth/types"
+	vestingtypes "github.com/cosmos/cosmos-sdk/x/auth/vesting/types"
 	minttypes "github.com/cosmos/cosmos-sdk/x/mint/types"
 
 	fundraising "github.com/tendermint/fundraising/x/fundraising/module"
@@ -305,6 +307,28 @@ func (e *Env) Exec(o Op) (pre []string, res Result, post []string) {
 		if res.Class == "ok" {
 			e.xfers = append(e.xfers, Xfer{"u" + f["from"], f["to"], int(pU64(f["d"])), amt})
 		}
+	case "LOCK":
+		// a third party (an account the model does not track) creates a delayed vesting account at the address of an
+		// escrow of a future auction and locks a few coins there for a century: the module can receive at that address
+		// and spend what it received, but the locked coins are never spendable
+		to := e.addrByName(f["to"])
+		coins := sdk.NewCoins(sdk.NewCoin(pDenom(f["d"]), pInt(f["amt"])))
+		res = e.tx(nil, func(c sdk.Context) error {
+			if e.app.AccountKeeper.HasAccount(c, to) {
+				return fmt.Errorf("account exists")
+			}
+			if err := e.app.BankKeeper.MintCoins(c, minttypes.ModuleName, coins); err != nil {
+				return err
+			}
+			base := authtypes.NewBaseAccountWithAddress(to)
+			base.AccountNumber = e.app.AccountKeeper.NextAccountNumber(c)
+			va, err := vestingtypes.NewDelayedVestingAccount(base, coins, c.BlockTime().Unix()+100*365*86400)
+			if err != nil {
+				return err
+			}
+			e.app.AccountKeeper.SetAccount(c, va)
+			return e.app.BankKeeper.SendCoinsFromModuleToAccount(c, minttypes.ModuleName, to, coins)
+		})
 	case "BLOCK", "FBLOCK":
 		t := pTime(f["t"])
 		pre = e.sweepOrders(t)
